@@ -94,6 +94,90 @@ def job_reader(args):
     return r
 
 
+def job_flush(args):
+    """Directed scenario for the reader's enable / flush path: stream A is read while the consumer stalls, the reader is disabled
+    until everything in flight has returned and the FIFOs have drained, then it is re-enabled and stream B is read.  Stream B
+    must come out exactly: one word per accepted address, in order, `last` on the matching word (nothing of stream A may
+    linger - neither data nor reservations)."""
+    depth, buffered, idx, tier, seed = args
+    from migen import run_simulation
+    from litedram.common import LiteDRAMNativePort
+    from litedram.frontend.dma import LiteDRAMDMAReader
+    rnd = random.Random("c12f-%d-%d-%d-%d" % (seed, depth, buffered, idx))
+    r = Result()
+    port = LiteDRAMNativePort("both", 16, 32)
+    dut = LiteDRAMDMAReader(port, fifo_depth=depth, fifo_buffered=bool(buffered))
+    cmd, rdata = port.cmd, port.rdata
+    memf = lambda a: (a * 2654435761 + 12345) & 0xffffffff
+    nA = rnd.randint(1, depth)          # with the consumer stalled the reader accepts at most `depth` addresses
+    B = [(rnd.getrandbits(16), int(k == n - 1)) for n in [rnd.randint(2, 2 * depth + 3)] for k in range(n)]
+    lines = ["%d %d" % (depth, buffered), "1 0 0 0 0 0 0 0"]
+    obs = []
+    got = []
+
+    def gen():
+        inflight = []
+        phase = "A"; sentA = 0; sentB = 0; quiet = 0; sv = 0; sa = 0; sl = 0; prev = None; enable = 1
+        for t in range(400 + 40 * depth):
+            if prev is not None:
+                o = ((yield dut.sink.ready), (yield cmd.valid), (yield cmd.addr), (yield cmd.last), (yield rdata.ready),
+                     (yield dut.source.valid), (yield dut.source.data), (yield dut.source.last))
+                o = (o[0], o[1], o[2] if o[1] else 0, o[3] if o[1] else 0, o[4], o[5], o[6] if o[5] else 0, o[7] if o[5] else 0)
+                obs.append("%d %d %d %d %d %d %d %d" % o)
+                en_, sv_, sa_, sl_, cr_, rv_, rd_, sr_ = prev
+                if o[1] and cr_:
+                    inflight.append([t + rnd.randint(1, 6), memf(o[2])])
+                if sv_ and o[0]:
+                    sv = 0
+                    if phase == "A": sentA += 1
+                    elif phase == "B": sentB += 1
+                if o[5] and sr_ and en_ and phase == "B":
+                    got.append((o[6], o[7]))
+            if phase == "A" and sentA >= nA and not sv:
+                phase = "flush"; quiet = 0
+            if phase == "flush":
+                quiet = quiet + 1 if not inflight else 0
+                if quiet > depth + 6:
+                    phase = "B"
+            if phase == "B" and len(got) >= len(B):
+                break
+            enable = 0 if phase == "flush" else 1
+            if not sv:
+                if phase == "A" and sentA < nA:
+                    sv, sa, sl = 1, rnd.getrandbits(16), int(rnd.random() < 0.5)
+                elif phase == "B" and sentB < len(B):
+                    sv, sa, sl = 1, B[sentB][0], B[sentB][1]
+            cr = int(rnd.random() < 0.9)
+            rv, rd = 0, 0
+            if inflight and inflight[0][0] <= t:
+                rv, rd = 1, inflight.pop(0)[1]
+            sr = 0 if phase in ("A", "flush") else int(rnd.random() < 0.8)
+            yield dut.enable.eq(enable)
+            yield dut.sink.valid.eq(sv); yield dut.sink.address.eq(sa); yield dut.sink.last.eq(sl)
+            yield cmd.ready.eq(cr); yield rdata.valid.eq(rv); yield rdata.data.eq(rd); yield dut.source.ready.eq(sr)
+            prev = (enable, sv, sa, sl, cr, rv, rd, sr)
+            lines.append("%d %d %d %d %d %d %d %d" % prev)
+            yield
+    run_simulation(dut, gen())
+    mo = core.run_driver("dmar", lines)[2:]
+    for i in range(min(len(mo), len(obs))):
+        r.evaluations += 1
+        if mo[i] != obs[i]:
+            mism(r, "LiteDRAMDMAReader (flush scenario) vs Model/Dma.lean", config=dict(depth=depth, buffered=buffered), cycle=i, impl=obs[i], model=mo[i], inputs=lines[max(2, i - 4):i + 3])
+            break
+    want = [(memf(a), l) for a, l in B]
+    r.distinct.add(("flush", depth, buffered, idx))
+    r.coverage["flush_scenarios"] = 1
+    if got != want:
+        k = next((k for k in range(min(len(got), len(want))) if got[k] != want[k]), min(len(got), len(want)))
+        r.violations.append(dict(signature="c12-reader-flush",
+            what="DMA reader depth=%d buffered=%d: after a disable/flush with %d reads of the previous stream buffered, the next stream of %d addresses comes out "
+                 "wrong at word %d: got %s, expected %s (%d words delivered)" % (depth, buffered, nA, len(B), k, got[k] if k < len(got) else None,
+                                                                                   want[k] if k < len(want) else None, len(got)),
+            replay=dict(depth=depth, buffered=buffered, seed=seed, idx=idx, inputs=lines[:80])))
+    return r
+
+
 def job_writer(args):
     depth, buffered, axi, idx, tier, seed = args
     from migen import run_simulation
@@ -165,6 +249,10 @@ def run(tier, seed):
                     jobs.append((job_reader, (depth, buffered, axi, idx, tier, seed)))
                     jobs.append((job_writer, (depth, buffered, axi, idx, tier, seed)))
     res = Result()
+    for depth in (1, 2, 4, 8):
+        for buffered in (0, 1):
+            for idx in range(2 if tier == "quick" else 10):
+                jobs.append((job_flush, (depth, buffered, idx, tier, seed)))
     for r in core.pmap(_dispatch, jobs):
         res.merge(r)
     return res
